@@ -1350,6 +1350,8 @@ class Interp:
             return it.length, it.snapshot()
         if isinstance(it, SymList):
             return it.count, it.at
+        if hasattr(it, "sym_rows"):
+            return it.sym_rows(self)
         if isinstance(it, SymZip):
             parts = [self.sym_iter(p) for p in it.parts]
             n = parts[0][0]
